@@ -197,6 +197,10 @@ def dynamic_lookup_namespaces(prog: Program, ev) -> List[str]:
     from .values import walk_vals, Term, Const
     out = set()
     for e in ev.events:
+        if e.kind == 'lib' and e.data.get('name') in ('builtins.globals', 'builtins.vars', 'builtins.locals'):
+            # the loader is taken from a namespace dictionary at run time
+            fn = getattr(e, 'func', None)
+            out.add(f"{fn.module.name if fn is not None else '?'} (through {e.data['name'].split('.')[-1]}())")
         for v in e.data.values():
             if not hasattr(v, 'rats') and not isinstance(v, (list, tuple, dict)):
                 continue
@@ -207,6 +211,9 @@ def dynamic_lookup_namespaces(prog: Program, ev) -> List[str]:
                 except Exception:
                     continue
                 for t in ts:
+                    if isinstance(t, Term) and t.head == 'global' and t.args and isinstance(t.args[0], Const) and t.args[0].v in ('globals', 'vars', 'locals'):
+                        fn = getattr(e, 'func', None)
+                        out.add(f"{fn.module.name if fn is not None else '?'} (through {t.args[0].v}())")
                     if isinstance(t, Term) and t.head in ('getattr', 'modvars') and t.args:
                         m = t.args[0] if t.head == 'getattr' else t.args[0]
                         if isinstance(m, Term) and m.head == 'module' and isinstance(m.args[0], Const):
